@@ -104,12 +104,11 @@ Definition outside_guard (c : (bool * Z * Z * wstate payload) * observed * bool)
 Definition check_file (c : (bool * Z * Z * wstate payload) * observed * bool) : bool :=
   let '(inp, obs, _) := c in check_case (inp, obs).
 
-(* hypotheses of C08_prune_preserves_wf / C08_prune_total on the tables construct_volume_t4
-   returned (they are facts about code outside this model; checked on every snapshot) *)
+(* hypotheses of C08_convert_tail_wf on the tables construct_volume_t4 returned (facts about
+   code outside this model; checked on every snapshot) *)
 Definition stage0_ok (c : (bool * Z * Z * wstate payload) * observed * bool) : bool :=
   let '((_, u0, u1, w), _, _) := c in
-  refs_okb (w_surfs w) (w_vols w) && nodupb (keys (w_surfs w)) && negb (u0 =? u1)%Z
-  && match lookup u0 (w_surfs w), lookup u1 (w_surfs w) with
-     | Some s0, Some s1 => negb (payload_eqb (s_eq s0) (s_eq s1))
-     | _, _ => false
-     end.
+  match w_vols w with
+  | [] => true     (* every cell is empty: the run raises before the file is opened *)
+  | _ => stage0_okb payload_eqb u0 u1 w
+  end.
